@@ -57,7 +57,7 @@ ALT = ['absent', 'dir', 'file', 'link-other-volume', 'link-same-volume']
 HOMEK = ['normal', 'home-trash-link-to-v', 'xdg-set', 'xdg-empty', 'home-unset', 'home-on-own-volume', 'xdg-set-on-v']
 UIDS = [1000, 0, 2 ** 31]
 TDOPT = [None, 'same-volume', 'other-volume', 'same-volume-existing']
-FALLBACK = [(False, None), (True, None), (False, '1'), (True, '1')]
+FALLBACK = [(False, None), (True, None), (False, '1'), (True, '1'), (True, '0'), (True, 'yes')]  # enabled only by the option AND the value 1
 
 
 def scenario(where, top, alt, hk, uid, tdo, fb):
@@ -255,19 +255,19 @@ def w_main(where: int, top: int, alt: int, hk: int, uid: int) -> str:
 def w_opts(where: int, top: int, alt: int, hk: int, tdo: int, fb: int) -> str:
     """
     pre: PARTITION is None or where == PARTITION
-    pre: 0 <= where < 8 and 0 <= top < 3 and 0 <= alt < 5 and 0 <= hk < 7 and 0 <= tdo < 4 and 0 <= fb < 4
+    pre: 0 <= where < 8 and 0 <= top < 3 and 0 <= alt < 5 and 0 <= hk < 7 and 0 <= tdo < 4 and 0 <= fb < 6
     post: _ == ''
     """
-    return _case(rt.sel(where, 8), rt.of([0, 1, 2], top), rt.sel(alt, 5), rt.sel(hk, 7), 0, rt.sel(tdo, 4), rt.sel(fb, 4))
+    return _case(rt.sel(where, 8), rt.of([0, 1, 2], top), rt.sel(alt, 5), rt.sel(hk, 7), 0, rt.sel(tdo, 4), rt.sel(fb, 6))
 
 
 def w_full(where: int, top: int, alt: int, hk: int, uid: int, tdo: int, fb: int) -> str:
     """
     pre: PARTITION is None or (where == PARTITION[0] and top == PARTITION[1])
-    pre: 0 <= where < 8 and 0 <= top < 9 and 0 <= alt < 5 and 0 <= hk < 7 and 0 <= uid < 3 and 0 <= tdo < 4 and 0 <= fb < 4
+    pre: 0 <= where < 8 and 0 <= top < 9 and 0 <= alt < 5 and 0 <= hk < 7 and 0 <= uid < 3 and 0 <= tdo < 4 and 0 <= fb < 6
     post: _ == ''
     """
-    return _case(rt.sel(where, 8), rt.sel(top, 9), rt.sel(alt, 5), rt.sel(hk, 7), rt.sel(uid, 3), rt.sel(tdo, 4), rt.sel(fb, 4))
+    return _case(rt.sel(where, 8), rt.sel(top, 9), rt.sel(alt, 5), rt.sel(hk, 7), rt.sel(uid, 3), rt.sel(tdo, 4), rt.sel(fb, 6))
 
 
 # ---------------------------------------------------------------- two concurrent runs, first use of the volume
@@ -329,7 +329,7 @@ def obligations(tier):
         CH('W_where_x_states_x_home_x_uid', MOD, 'w_main', timeout=1200, partitions=list(range(8)), engine='W', regime='selector',
            encodes=K.PUT_FUNCS, stubs=K.STUBS, bounds='8 file locations (incl. symlinks to a directory on another volume spelled with trailing slashes) x 9 .Trash states x 5 .Trash-uid states x 7 home variants x 3 uids'),
         CH('W_trashdir_opt_and_fallback', MOD, 'w_opts', timeout=1800, partitions=list(range(8)), engine='W', regime='selector',
-           encodes=K.PUT_FUNCS, stubs=K.STUBS, bounds='6 locations x 3 .Trash states x 5 .Trash-uid x 7 home variants x 4 --trash-dir x 4 fallback switches'),
+           encodes=K.PUT_FUNCS, stubs=K.STUBS, bounds='6 locations x 3 .Trash states x 5 .Trash-uid x 7 home variants x 4 --trash-dir x 6 fallback switches (option x environment value unset/1/0/yes)'),
     ]
     cparts = [(k, p) for k in ((0, 2) if tier == 'quick' else range(5)) for p in range(2)]
     obs.append(CH('W_two_runs_race_for_a_new_trash_dir', MOD, 'w_conc', timeout=1800, partitions=cparts, engine='W', regime='selector',
@@ -338,5 +338,5 @@ def obligations(tier):
                          'shared instant, P1 to its b1-th, then both complete; all pairs of shared instants x %d kind pairs' % (len(cparts) // 2)))
     if tier == 'thorough':
         obs.append(CH('W_full_lattice', MOD, 'w_full', timeout=7000, partitions=[(a, b) for a in range(8) for b in range(9)], twin=False,
-                      engine='W', regime='selector', encodes=K.PUT_FUNCS, stubs=K.STUBS, bounds='8 x 9 x 5 x 7 x 3 x 4 x 4 = 120960 configurations'))
+                      engine='W', regime='selector', encodes=K.PUT_FUNCS, stubs=K.STUBS, bounds='8 x 9 x 5 x 7 x 3 x 4 x 6 = 181440 configurations'))
     return obs
